@@ -363,7 +363,7 @@ func (v *Verifier) store(st *State, addr *Term, t types.Type, val *Term) {
 // cellFact records Go's type safety for one memory cell: the cell at addr holds a value of Go type t
 // (zz_celltype). Two pointers to cells of different Go types can therefore never alias.
 func (v *Verifier) cellFact(st *State, addr *Term, t types.Type) {
-	if rootOf(addr).Op == "zz_new" || addr.Op == "zz_nilptr" || mentionsBound(addr) {
+	if rootOf(addr).Op == "zz_new" || addr.Op == "zz_nilptr" || mentionsBound(addr) || v.D.mentionsForeign(t) {
 		return
 	}
 	v.D.declFun("zz_celltype", []string{"Ptr"}, "Int")
